@@ -338,8 +338,9 @@ Definition main37 (input observed : T) : T :=
                         else coins_stream world owner asset base excl in
           let result :=
             if mode =? 0 then
-              (* the dust count is bounded by max: try every admissible draw *)
-              let cands := nseqN (S (N.to_nat (N.min max 1024))) 0 in
+              (* the dust count is at most min(5 * #big, max - #big) <= min(max, 5 * |index|):
+                 try every admissible draw *)
+              let cands := nseqN (S (N.to_nat (N.min max (5 * lenN stream)))) 0 in
               let f := select_coins_to_spend stream target max partial excl in
               pick f obs cands (f 0)
             else if mode =? 1 then largest_first stream target max partial
